@@ -247,12 +247,14 @@ def check_then_mark_pattern(acc, sid, ns):
     """The known window: two threads both got `is_connected(sid) -> True`
     (directly or via can_disconnect); for each of them the very next manager
     / engine.io access after that check is `pre_disconnect(sid)` (the check
-    is immediately followed by the mark, as in the shipped code); and the
-    later thread's check call had started before the earlier thread's
-    `pre_disconnect` returned - it slipped in between check and mark.  A
-    check that succeeds although an earlier thread's mark had already been
-    placed, or a thread doing anything else between its check and its mark,
-    is a different, wider window and is not the known finding."""
+    is immediately followed by the mark, as in the shipped code); and every
+    later thread's check call started while some other thread was between
+    its own successful check and the completion of its `pre_disconnect` - it
+    slipped in between check and mark (this includes two marks racing each
+    other inside pre_disconnect, where one overwrites the other's list).  A
+    check that succeeds when no such window is open, or a thread doing
+    anything else between its check and its mark, is a different defect and
+    is not the known finding."""
     if sid is None:
         return 'other'
     ok = []           # (tid, seq of the check call, seq of its mark's return)
@@ -292,10 +294,13 @@ def check_then_mark_pattern(acc, sid, ns):
     if len(tids) < 2:
         return 'other'
     ok.sort(key=lambda x: x[1])
-    first_done = min(x[2] for x in ok)
-    for tid, start, done in ok:
-        if start > first_done:
-            return 'other'      # checked after a mark had been placed
+    for i, (tid, start, done) in enumerate(ok):
+        if i == 0:
+            continue
+        # when this check started, some other thread must have been between
+        # its own successful check and the completion of its mark
+        if not any(t2 != tid and s2 < start < d2 for t2, s2, d2 in ok):
+            return 'other'      # no window was open: a different defect
     return 'check_then_mark_window'
 
 
